@@ -107,10 +107,10 @@ def build_call(program, op, ty, nums):
     return fn, args, post
 
 
-def run(e, dom, op, ty, make_nums, max_paths=64):
+def run(e, dom, op, ty, make_nums, max_paths=64, stubs=None):
     """make_nums(dom) -> list of Num.  Returns list of (path, [Num] flattened outcome, raw value)."""
     from interp import Interp
-    it = Interp(e.program, dom, max_paths=max_paths)
+    it = Interp(e.program, dom, max_paths=max_paths, stubs=stubs)
     holder = {}
 
     def mk(d):
